@@ -65,6 +65,16 @@ CHECKS = {
   text="Every expression of the C01 slices plus a slice with named numeric/string types, sized kinds, dynamic members, retyped literals, fast calls and nested builtins over collections of different element types is evaluated by every variant; all variants that succeed must return equal results and call logs. This pins every place where a static type selects a specialised opcode or rewrite (OpEqualInt/OpEqualString, OpFetchMap, OpCallFast, literal retyping, type-guarded optimizations).",
   note="Trusted: result normal form; only successes are compared, as the property states.",
   ref="DESIGN.md section 4 C15"),
+ "C16": dict(
+  technique="exhaustive enumeration over a generated family of environment types (every ordered choice of <= 3 slots from 13 field/embedding kinds) x names x forms x {value, pointer} on the real Compile/Run/docgen, oracle = Go's own selector resolution through reflect",
+  text="1749 generated struct types (direct, unexported, function-typed fields, structs embedded by value and by pointer, deep embedding, an unexported embedded struct, value/pointer methods, a method shadowing a promoted field; shadowing and genuine ambiguity at depths 0-2 in every field order) x 18 names (members and near-misses) x {Name, Name(), V.Name, V.Name()} x {value, pointer}: an accepted name must run on the populated value and yield a value of the checker's type (and the value Go selects); an exported member Go resolves unambiguously must be accepted; docgen must list exactly the accepted top-level names; plus typed, untyped and named map environments.",
+  note="Trusted: reflect.FieldByName / MethodByName as the definition of Go's resolution. The family is finite by construction (<= 3 slots).",
+  ref="DESIGN.md section 4 C16"),
+ "C17": dict(
+  technique="small-scope exhaustive enumeration of expressions with overloadable operator occurrences in every context x 8 overload tables x values, differential oracle operator form vs explicit-call form on the real Compile/Run, plus every ill-shaped table",
+  text="Every expression (to a node budget) over +, -, ==, <, in, and occurrences with matching, non-matching, dynamic and nil operand types, nested and under indexes, slices, closures, arguments, methods, map values, array elements and branches, is compiled with each of 8 operator tables (one method; three candidates; string minus; object comparison; function-typed field; interface{} parameters; in/and; Stringer interface) and compared on every value (result, failure, call log) with the same expression in which exactly the statically matching occurrences are replaced by the explicit call. Ten ill-shaped tables (missing, non-function, wrong arity, two/no results) must be rejected in five compile modes.",
+  note="Trusted: the static operand types of the harness grammar (reference typing rules) decide which occurrence matches.",
+  ref="DESIGN.md section 4 C17"),
  "C18": dict(
   technique="exhaustive enumeration of array expressions x predicates/mappers over '#' x values on the real library with a metamorphic oracle (each defining identity run as two programs and as one expression)",
   text="For every array expression (members, ranges, literals, filter/map results, and the element of an outer closure) and every predicate over '#' up to a node budget (including predicates that contain builtins over other arrays), in optimized/unoptimized/no-env modes and for every value: all = not any not, none = not any, one = (count = 1), count = len(filter), any = count > 0, len(map) = len, filter idempotent and equal to the element-wise selection, innermost-'#' law, x in a..b = two-sided comparison over integer kinds, xs[:i] ++ xs[i:] = xs for i in -1..len+1 with coinciding failures. No reference values are involved.",
